@@ -169,6 +169,10 @@ def main(argv=None):
     mod = importlib.import_module("harness.props." + prop.lower())
     os.makedirs(os.path.join(VERIF, "evidence"), exist_ok=True)
     os.makedirs(os.path.join(VERIF, "replay"), exist_ok=True)
+    if not args.replay:
+        import glob
+        for old in glob.glob(os.path.join(VERIF, "replay", "%s_*.json" % prop)):
+            os.remove(old)
 
     if build_err is not None:
         ctx.obligation_broken("build of /repo working tree", build_err[-4000:])
